@@ -45,23 +45,29 @@ def build(template, htf, s, log):
   from openhtf.util import threads  # pylint: disable=g-import-not-at-top
 
   def mk(name, role, kind='quick', result=None, **opts):
+    def work():
+      if kind == 'sleep':
+        for _ in range(50):   # killable: an asynchronous exception is delivered between the short sleeps
+          s.sleep(0.1)
+      elif kind == 'block':
+        while True:       # blocks "forever" but wakes once per virtual second so that a kill can be delivered
+          s.sleep(1.0)
+      elif kind == 'swallow':
+        try:
+          s.sleep(5.0)
+        except threads.ThreadTerminationError:
+          log.append(('swallowed', name, role, s.k))
+          s.sleep(1.0)
+      else:
+        s.yield_point('body')
+
     def body(test):
       log.append(('start', name, role, s.k))
       try:
-        if kind == 'sleep':
-          for _ in range(50):   # killable: an asynchronous exception is delivered between the short sleeps
-            s.sleep(0.1)
-        elif kind == 'block':
-          while True:       # blocks "forever" but wakes once per virtual second so that a kill can be delivered
-            s.sleep(1.0)
-        elif kind == 'swallow':
-          try:
-            s.sleep(5.0)
-          except threads.ThreadTerminationError:
-            log.append(('swallowed', name, role, s.k))
-            s.sleep(1.0)
-        else:
-          s.yield_point('body')
+        work()
+      except threads.ThreadTerminationError:
+        log.append(('terminated', name, role, s.k))
+        raise
       finally:
         log.append(('end', name, role, s.k))
       return result
@@ -148,7 +154,17 @@ def abort_case(case):
   def fn(s):
     htf = ohtf.reset_case(cancel_timeout_s=2, plug_teardown_timeout_s=1)
     vmode.quiet_logging()
-    log = []
+
+    class TimedLog(list):
+      def __init__(self):
+        super(TimedLog, self).__init__()
+        self.times = []
+
+      def append(self, item):
+        self.times.append(s.now)
+        super(TimedLog, self).append(item)
+
+    log = TimedLog()
 
     class P(htf.plugs.BasePlug):
       def __init__(self):
@@ -197,7 +213,7 @@ def abort_case(case):
       for p in rec.phases:
         if p.outcome is None or p.result is None or p.options is None or p.end_time_millis is None:
           incomplete.append('phase %s: outcome=%r result=%r options=%s end=%r' % (p.name, p.outcome, p.result, 'set' if p.options is not None else None, p.end_time_millis))
-    return {'ret': ret, 'raised': raised, 'log': log, 'outcome': cbs[0].outcome.name if cbs else None, 'n_cb': len(cbs),
+    return {'ret': ret, 'raised': raised, 'log': list(log), 'times': list(log.times), 'outcome': cbs[0].outcome.name if cbs else None, 'n_cb': len(cbs),
             'records': [(p.name, p.outcome.name) for p in cbs[0].phases] if cbs else [], 'incomplete': incomplete}
 
   return fn
@@ -260,6 +276,18 @@ def check(case):
     r.classes.append('abort-before-registration')
     r.nontrivial = False
     return r, s
+  # "the phase body running at that moment is asked to terminate": a killable non-teardown body that was running when
+  # the (first) abort call started and was still running when it returned must have received the termination error
+  if enters and exits:
+    for i, e in starts:
+      still_within_timeout = res['times'][enters[0]] < res['times'][i] + 179.0   # not already abandoned by its phase timeout
+      if e[2] in ('test_start', 'setup', 'main') and i < enters[0] and tag != 'swallow' and still_within_timeout:
+        ended = [j for j, x in enumerate(log) if x[0] == 'end' and x[1] == e[1] and j > i]
+        if not ended or ended[0] > exits[0]:
+          if not any(x[0] == 'terminated' and x[1] == e[1] for x in log):
+            r.bad('C04/running-body-not-terminated', '%s plan=%r: %s body %r was running during the abort but never received ThreadTerminationError; log=%r' % (
+                tag, case.get('plan'), e[2], e[1], log))
+            break
   # O5 callbacks exactly once
   if res['n_cb'] != 1:
     locs = [e[4] for e in log if e[0] == 'abort-enter' and len(e) > 4]
